@@ -74,6 +74,11 @@ func (ds *Storage) readBlobs(ctx context.Context, opts readBlobRequest) error {
 		fullFile := filepath.Join(dirFullPath, name)
 		f := newFuture(func() (os.FileInfo, error) {
 			fi, err := ds.fs.Stat(fullFile)
+			if os.IsNotExist(err) {
+				// The entry vanished after the directory was read: a temp
+				// file renamed by a concurrent upload, or a removed blob.
+				return nil, err
+			}
 			if err != nil {
 				return nil, &enumerateError{"stat", err}
 			}
@@ -106,6 +111,9 @@ func (ds *Storage) readBlobs(ctx context.Context, opts readBlobRequest) error {
 		isDir := isShardDir(name)
 		if !isDir {
 			fi, err := stat[name].Get()
+			if os.IsNotExist(err) {
+				continue
+			}
 			if err != nil {
 				return err
 			}
@@ -139,6 +147,9 @@ func (ds *Storage) readBlobs(ctx context.Context, opts readBlobRequest) error {
 		}
 
 		fi, err := stat[name].Get()
+		if os.IsNotExist(err) {
+			continue
+		}
 		if err != nil {
 			return err
 		}
